@@ -10,3 +10,4 @@ def run(ck):
     traps.r5_trap_shortcut(ck, P)
     algebra.r12_zero_src(ck, P)
     traps.r6_trap_extents(ck, P)
+    traps.r7_error_term_width(ck, P)
